@@ -81,6 +81,17 @@ async fn read_event_buffer(
     let offset = record.value();
     let row_len = offset.end - offset.start;
 
+    // A corrupted data length must not cause an allocation
+    // out of proportion to the size of the file
+    let file_len = vfs::metadata(file_path.as_ref()).await?.len();
+    if offset.end > file_len {
+        return Err(std::io::Error::new(
+            std::io::ErrorKind::UnexpectedEof,
+            "event record data length exceeds file length",
+        )
+        .into());
+    }
+
     guard.seek(SeekFrom::Start(offset.start)).await?;
 
     let mut buf = vec![0u8; row_len as usize];
